@@ -17,6 +17,7 @@ EXPLANATION = (
     "its returned count compared. F5: every ok-return of the record append is preceded by the OS write of the whole record (the "
     "header is pushed into the index only on the ok edge of the append). Decides this error-path structure, not the outcome of "
     "every n-th failing operation.")
+EXPLANATION += (" " + 'F8 after the ok edge of delete_in_active no fallible step whose callee can really return Err follows (closed-blob errors are logged inside delete_in_closed).')
 ASSUMPTIONS = ["the err-exit of a body is every return reached through FromResidual::from_residual or an explicit Err(..) aggregate"]
 
 FILES = ('src/storage/', 'src/blob/', 'src/record/', 'src/io/')
@@ -243,6 +244,50 @@ def f7(ctx, rid):
     c12.s8(ctx, rid, only_sync=False)
 
 
+def never_err(prog, fid, _seen=None):
+    """the async fn / fn `fid` cannot return Err: every definition of its return value is an Ok(..) aggregate"""
+    b = prog.body_of(fid)
+    if b is None:
+        return False
+    eds = [(bb, k) for (bb, k, _) in core.exit_defs(b) if bb in b.reachable()]
+    return bool(eds) and all(k == 'ok' for _, k in eds)
+
+
+def f8(ctx, rid):
+    """a multi-blob delete that already wrote its tombstone into the active blob is not reported as failed: after the ok edge of
+    delete_in_active no error return of the operation is reachable (errors of the closed blobs are logged and counted as 0)"""
+    prog = ctx.prog
+    n = 0
+    for f in prog.fns.values():
+        for c in f.calls:
+            if c.name == 'poll' or not any(t.endswith('::delete_in_active') for t in prog.resolve(c)):
+                continue
+            ob = core.ok_block(f, c)
+            if ob is None:
+                continue
+            n += 1
+            key = 'no-error-after-tombstone|%s' % prog.fns[f.id].root
+            bad = None
+            reach = f.reach_from([ob])
+            for c2 in f.calls:
+                if c2.bb not in reach or c2.name in ('poll', 'branch', 'from_residual', 'into_future', 'new_unchecked') or not is_fallible_call(prog, c2):
+                    continue
+                eb = core.err_block(f, c2)
+                if eb is None:
+                    continue
+                tg = [t for t in prog.resolve(c2) if t in prog.fns]
+                if tg and all(never_err(prog, t) for t in tg):
+                    continue
+                bad = c2
+                break
+            if bad is not None:
+                ctx.bad(rid, key, bad.where(), 'after the deletion record was appended to the active blob (ok edge of delete_in_active) a failure of `%s` makes the whole delete return Err: the key is served as deleted from then on although the operation reported an error' % bad.name)
+            else:
+                ctx.ok(rid, key, c.where(), 'no fallible step that can really fail follows the tombstone (closed-blob errors are logged inside delete_in_closed)')
+    if n < 1:
+        raise core.AnchorLost('delete_in_active call with an ok edge: %d' % n)
+
+
 RULES = [
     Rule('C11.X3', 'no err-exit is reachable between a move-out of shared state and its hand-back', x3, 4),
     Rule('C11.L1', 'an error while handling a worker message never ends the maintenance loop (C13.L1 instances)', l1, 4),
@@ -250,5 +295,6 @@ RULES = [
     Rule('C11.F4', 'file data is written with all-or-error primitives, or the returned byte count is compared', f4, 5),
     Rule('C11.F5', 'a record header reaches the index only on the ok edge of its append', f5, 2),
     Rule('C11.F7', 'boolean request-pending / in-progress flags are released on every path including error exits (C12.S8 instances)', f7, 1),
+    Rule('C11.F8', 'once the tombstone is in the active blob the delete cannot be reported as failed', f8, 1),
     Rule('C11.F6', 'an index file cut short by a failed dump is never trusted: written flag set in a second phase, extent checked at open (C03.I8/I5 instances)', f6, 2),
 ]
